@@ -47,7 +47,9 @@ func ruleC13R1(r *Run) {
 		r.Undecided("anchor:checkFuzz.input", fn.Pos(), "anchor unresolved: parameter input of checkFuzz")
 		return
 	}
-	dec := p.callsMatching(fn, func(k string) bool { return strings.HasPrefix(k, "(encoding/binary.") && strings.HasSuffix(k, ").Uint64") })
+	dec := p.callsMatching(fn, func(k string) bool {
+		return strings.HasPrefix(k, "(encoding/binary.") && strings.HasSuffix(k, ").Uint64")
+	})
 	if len(dec) != 1 {
 		r.Fail("checkFuzz#decode", fn.Pos(), fmt.Sprintf("expected exactly one binary.*.Uint64 decoding call, found %d", len(dec)))
 		return
@@ -141,7 +143,7 @@ func ruleC13R1(r *Run) {
 	if offPhi != nil {
 		for _, g := range guardsOf(d.Instr.Block()) {
 			rl := p.relOf(g)
-			if rl.X == p.expr(offPhi) && rl.Op == "<" && rl.Y == "builtin:len($input)" {
+			if rl.is(p.expr(offPhi), "<", "builtin:len($input)") {
 				okCond = true
 			}
 		}
@@ -203,6 +205,9 @@ func ruleC13R2(r *Run) {
 		nonNil := holds(facts, eKey, "!=", "nil")
 		inv := holdsCallTrue(p, cs.Instr.Block(), "(*testError).isInvalidData", e)
 		notInv := holdsCallFalse(p, cs.Instr.Block(), "(*testError).isInvalidData", e)
+		if !notInv && holdsCallTrue(p, cs.Instr.Block(), "(*testError).isStopTest", e) && p.exclusiveTypePredicates("(*testError).isStopTest", "(*testError).isInvalidData") {
+			notInv = true // a stopTest payload is not an invalidData payload
+		}
 		switch m {
 		case "Helper", "Name":
 		case "Skip", "Skipf", "SkipNow":
@@ -533,6 +538,21 @@ func ruleC14R5(r *Run) {
 						walk(a, d+1)
 					}
 				}
+				// a value computed by an inlined helper (n := t.pendingCleanups()): what it returns
+				if sc := x.Common().StaticCallee(); sc != nil && p.transparent(sc) {
+					if o := sc.Origin(); o != nil {
+						sc = o
+					}
+					for _, ret := range returnsOf(sc) {
+						for k := range ret.Results {
+							walk(p.res(ret, k), d+1)
+						}
+					}
+				}
+			case *ssa.Parameter:
+				if r := p.resolve(x); r != ssa.Value(x) {
+					walk(r, d+1)
+				}
 			case *ssa.Phi:
 				for _, e := range x.Edges {
 					walk(e, d+1)
@@ -554,45 +574,7 @@ func ruleC14R5(r *Run) {
 		}
 	}
 	r.Floor("read-modify-write dependencies on guarded T fields", nRMW, 2)
-	// Context: store to ctx dominated inside the W region by the re-check ctx == nil
-	if fn := r.MustFn("(*T).Context"); fn != nil {
-		ls := p.lockSets(fn)
-		n := 0
-		for _, fa := range p.fieldAccesses("T") {
-			if !p.within(fa.Fn, fn) || fa.Field != "ctx" || fa.Kind != "write" {
-				continue
-			}
-			n++
-			st := fa.Instr.(*ssa.Store)
-			ok := false
-			why := "no re-check of t.ctx == nil under the write lock dominates the store"
-			for _, g := range guardsOf(st.Block()) {
-				rl := p.relOf(g)
-				if rl.X == "$t.ctx" && rl.Op == "==" && rl.Y == "nil" {
-					// the load feeding this condition must be under the W lock and no unlock until the store
-					bo := p.resolve(g.Cond).(*ssa.BinOp)
-					ld, isLoad := bo.X.(*ssa.UnOp)
-					if !isLoad {
-						ld, isLoad = p.resolve(bo.X).(*ssa.UnOp)
-					}
-					if isLoad && ls[ld]["&$t.mu"] == 'W' && ls[st]["&$t.mu"] == 'W' && noUnlockBetween(p, ld, st) {
-						ok = true
-					} else {
-						why = "the t.ctx == nil check that guards the store was made outside the write-locked region of the store"
-					}
-				}
-			}
-			r.Check("(*T).Context#store-ctx", st.Pos(), ok, "t.ctx is stored only after re-checking t.ctx == nil inside the same write-locked region", why+": two goroutines can each create and observe a different context")
-		}
-		r.Floor("stores to t.ctx in Context", n, 1)
-		// ctx and cancelCtx stored in the same region
-		for _, fa := range p.fieldAccesses("T") {
-			if p.within(fa.Fn, fn) && fa.Field == "cancelCtx" && fa.Kind == "write" {
-				r.Check("(*T).Context#store-cancel", fa.Instr.Pos(), ls[fa.Instr]["&$t.mu"] == 'W', "cancel function stored under the write lock", "cancel function stored without the write lock")
-			}
-		}
-		// every return value is the stored/loaded ctx or a cancelled fresh one
-	}
+	ruleContextStoreRecheck(r)
 }
 
 // noUnlockBetween: no Unlock/RUnlock call is reachable after a and before b (a dominates b assumed).
@@ -682,4 +664,86 @@ func ruleC14R6(r *Run) {
 		}
 	}
 	r.Floor("calls made while T.mu is held", n, 3)
+}
+
+// exclusiveTypePredicates: both methods return the ok of a type assertion of the same receiver field to two distinct
+// concrete types, so at most one of them is true.
+func (p *Program) exclusiveTypePredicates(a, b string) bool {
+	asserted := func(name string) (string, string) {
+		fn := p.Fn(name)
+		if fn == nil {
+			return "", ""
+		}
+		rets := returnsOf(fn)
+		if len(rets) != 1 || len(rets[0].Results) != 1 {
+			return "", ""
+		}
+		ex, ok := p.resolve(p.res(rets[0], 0)).(*ssa.Extract)
+		if !ok || ex.Index != 1 {
+			return "", ""
+		}
+		ta, ok := ex.Tuple.(*ssa.TypeAssert)
+		if !ok || !ta.CommaOk {
+			return "", ""
+		}
+		if _, isIface := ta.AssertedType.Underlying().(*types.Interface); isIface {
+			return "", ""
+		}
+		return p.expr(ta.X), p.typeStr(ta.AssertedType)
+	}
+	xa, ta := asserted(a)
+	xb, tb := asserted(b)
+	// the operands are rendered with each method's own receiver name; compare the field path after the receiver
+	strip := func(s string) string {
+		if i := strings.Index(s, "."); i >= 0 {
+			return s[i:]
+		}
+		return s
+	}
+	return ta != "" && tb != "" && ta != tb && strip(xa) == strip(xb)
+}
+
+// ruleContextStoreRecheck: Context creates the context at most once per test case: the store to t.ctx happens only after
+// t.ctx == nil was (re)checked inside the same write-locked region. Otherwise two goroutines making the first Context()
+// call each create a context, only the last one stored is cancelled by cleanup (C10), and they observe different ones (C14).
+func ruleContextStoreRecheck(r *Run) {
+	p := r.P
+	if fn := r.MustFn("(*T).Context"); fn != nil {
+		ls := p.lockSets(fn)
+		n := 0
+		for _, fa := range p.fieldAccesses("T") {
+			if !p.within(fa.Fn, fn) || fa.Field != "ctx" || fa.Kind != "write" {
+				continue
+			}
+			n++
+			st := fa.Instr.(*ssa.Store)
+			ok := false
+			why := "no re-check of t.ctx == nil under the write lock dominates the store"
+			for _, g := range guardsOf(st.Block()) {
+				rl := p.relOf(g)
+				if rl.X == "$t.ctx" && rl.Op == "==" && rl.Y == "nil" {
+					// the load feeding this condition must be under the W lock and no unlock until the store
+					bo := p.resolve(g.Cond).(*ssa.BinOp)
+					ld, isLoad := bo.X.(*ssa.UnOp)
+					if !isLoad {
+						ld, isLoad = p.resolve(bo.X).(*ssa.UnOp)
+					}
+					if isLoad && ls[ld]["&$t.mu"] == 'W' && ls[st]["&$t.mu"] == 'W' && noUnlockBetween(p, ld, st) {
+						ok = true
+					} else {
+						why = "the t.ctx == nil check that guards the store was made outside the write-locked region of the store"
+					}
+				}
+			}
+			r.Check("(*T).Context#store-ctx", st.Pos(), ok, "t.ctx is stored only after re-checking t.ctx == nil inside the same write-locked region", why+": two goroutines can each create and observe a different context")
+		}
+		r.Floor("stores to t.ctx in Context", n, 1)
+		// ctx and cancelCtx stored in the same region
+		for _, fa := range p.fieldAccesses("T") {
+			if p.within(fa.Fn, fn) && fa.Field == "cancelCtx" && fa.Kind == "write" {
+				r.Check("(*T).Context#store-cancel", fa.Instr.Pos(), ls[fa.Instr]["&$t.mu"] == 'W', "cancel function stored under the write lock", "cancel function stored without the write lock")
+			}
+		}
+		// every return value is the stored/loaded ctx or a cancelled fresh one
+	}
 }
